@@ -222,6 +222,10 @@ def run(ctx: Ctx):
     front_end(ctx, {k: "R03.e" for k in "abcde"}, declare=False)
 
     ctx.rule("R03.d", "every scheme offered for the jax backend receives the keyword arguments its builder takes (delta, stiff_states)", floor=4)
+    from .c18 import check_get_code_forwards
+
+    for opt_ in ("delta", "stiff_states"):
+        check_get_code_forwards(ctx, "R03.d", opt_)
     from . import common as _c
 
     _c.check_scheme_kwargs(ctx, "R03.d", "delta")
